@@ -507,6 +507,22 @@ func cmdCheck(args []string) int {
 	allAssume := []string{"engine: go/ssa interpreter with symbolic scalars; the native models listed in DESIGN.md section 2 (time, errors, fmt, hashes as uninterpreted functions, sync primitives, no-op logging and metrics) and the SMT solvers are trusted"}
 	totalViol := 0
 	inconclusive := false
+	if (*tier == "thorough" || os.Getenv("VERIF_NATIVE_BUILD") != "") && !*noReplay && *oneScript == "" {
+		// the native replay variant of every harness package must build, so that a
+		// witness can be confirmed when one turns up
+		built := map[string]bool{}
+		for _, s := range sel {
+			if built[s.PkgRel] || !s.Replay {
+				continue
+			}
+			built[s.PkgRel] = true
+			_, out := nativeReplay(sc, s, specs, symgo.Violation{Label: "none"}, "")
+			if strings.Contains(out, "build failed") || strings.Contains(out, "cannot find") || !strings.Contains(out, "ok ") {
+				fmt.Fprintf(os.Stderr, "  problem: native replay build of %s failed:\n%s\n", s.PkgRel, firstLines(out, 20))
+				inconclusive = true
+			}
+		}
+	}
 	for _, s := range sel {
 		pkg := ld.pkgs[s.PkgRel]
 		if pkg == nil {
@@ -632,7 +648,7 @@ func cmdCheck(args []string) int {
 func engineChoiceScore(script string) int {
 	n := 0
 	for _, f := range strings.Fields(script) {
-		if strings.HasPrefix(f, "c") {
+		if strings.HasPrefix(f, "c") || strings.HasPrefix(f, "s") {
 			var v int
 			fmt.Sscanf(f[1:], "%d", &v)
 			n += v
